@@ -6963,7 +6963,12 @@ impl<T: Deserialize + Packed> Deserialize for Vec<T> {
             if num_elems == 0 {
                 return Ok(Vec::new());
             }
-            let num_bytes = elem_size * num_elems;
+            let num_bytes = if let Some(num_bytes) = elem_size.checked_mul(num_elems) {
+                num_bytes
+            } else {
+                // The stated number of elements can't possibly be backed by the input.
+                return Err(SavefileError::MemoryAllocationLayoutError);
+            };
 
             let layout = if let Ok(layout) = std::alloc::Layout::from_size_align(num_bytes, align) {
                 Ok(layout)
